@@ -21,9 +21,9 @@ KNOWN = os.path.join(VERIF, "known_findings.json")
 
 TIERS = {
     # property -> tier -> number of seeds
-    "C09": {"quick": 220, "thorough": 3000},
-    "C18": {"quick": 110, "thorough": 1500},
-    "C05": {"quick": 100, "thorough": 1500},
+    "C09": {"quick": 400, "thorough": 6000},
+    "C18": {"quick": 250, "thorough": 4000},
+    "C05": {"quick": 400, "thorough": 6000},
 }
 SELFTEST = {"quick": 8, "thorough": 48}
 
